@@ -17,7 +17,7 @@ use serde::{Deserialize, Serialize};
 use serde_json::{json, Map, Value};
 use simcore::codec::{Api, Format};
 use simcore::decl::Decl;
-use simcore::diff::{build_doc, diff_get, diff_in_place, diff_stream, GetResult, Side};
+use simcore::diff::{build_doc, diff_get, diff_in_place, diff_stream, read_one_side, GetResult, Side};
 use simcore::report::{self, hex, unhex, Config, EvidenceExtra};
 use simcore::rng::{Fnv, Rng};
 use simcore::runner::{self, Stats, Violation, WorkerCtx};
@@ -848,6 +848,11 @@ fn exec_plan(plan: &Value) -> Result<Vec<(String, String)>, String> {
             let out = with_decl(idx, ExecSession { s: &s });
             Ok(out.violations.into_iter().map(|(_, i, d)| (i, d)).collect())
         }
+        "hostile_length" => {
+            let shape: ShapeId = serde_json::from_value(plan["shape"].clone()).map_err(|e| e.to_string())?;
+            let bytes = unhex(plan["bytes_hex"].as_str().unwrap_or(""));
+            Ok(hostile_verdict(idx, shape, &bytes).into_iter().collect())
+        }
         other => Err(format!("unknown scenario {other:?}")),
     }
 }
@@ -988,6 +993,110 @@ fn sweep(cfg: &Config, which: u64, n: u64, keep_trace: bool, workers: usize) -> 
     )
 }
 
+// ------------------------------------------------------------------------------------ hostile length prefixes
+
+/// MessagePack headers that announce a huge payload which is not there. A correct reader returns
+/// an error after allocating little; a reader that trusts the announced length can request an
+/// allocation the system refuses, and that ABORTS the process instead of returning an error - which
+/// can only be observed from outside, so each read runs in a child process under `ulimit -v`.
+const HOSTILE_HEADERS: &[&[u8]] = &[
+    &[0xdd, 0xff, 0xff, 0xff, 0xff],
+    &[0xdd, 0x7f, 0xff, 0xff, 0xff],
+    &[0xdd, 0x10, 0x00, 0x00, 0x00],
+    &[0xdf, 0xff, 0xff, 0xff, 0xff],
+    &[0xdb, 0xff, 0xff, 0xff, 0xff],
+    &[0xc6, 0xff, 0xff, 0xff, 0xff],
+    &[0xdc, 0xff, 0xff],
+];
+const HOSTILE_VM_LIMIT_KB: u64 = 3_000_000;
+
+struct HostileRead<'b> {
+    shape: ShapeId,
+    bytes: &'b [u8],
+    twin: bool,
+}
+impl<'b> DeclVisitor for HostileRead<'b> {
+    type Out = &'static str;
+    fn visit<D: Decl>(self, _core: bool) -> &'static str {
+        read_one_side::<D>(self.shape, Format::Msgpack, self.bytes, self.twin)
+    }
+}
+
+fn hostile_doc(shape: ShapeId, header: &[u8]) -> Vec<u8> {
+    match shape {
+        // a one-element array whose element is the hostile header
+        ShapeId::VecOf => {
+            let mut v = vec![0x91];
+            v.extend_from_slice(header);
+            v
+        }
+        _ => header.to_vec(),
+    }
+}
+
+/// Exit status of the child: Some(code) if it exited, None if it was killed by a signal.
+fn hostile_child(decl_idx: usize, shape: ShapeId, bytes: &[u8], twin: bool) -> Option<i32> {
+    let exe = std::env::current_exe().ok()?;
+    let cmd = format!(
+        "ulimit -v {}; exec \"{}\" hostile {} {} {} {}",
+        HOSTILE_VM_LIMIT_KB,
+        exe.display(),
+        decl_idx,
+        shape.name(),
+        hex(bytes),
+        if twin { "twin" } else { "t" }
+    );
+    let st = std::process::Command::new("sh").arg("-c").arg(cmd).stdout(std::process::Stdio::null()).stderr(std::process::Stdio::null()).status().ok()?;
+    st.code()
+}
+
+fn hostile_plan(decl: &str, shape: ShapeId, bytes: &[u8]) -> Value {
+    json!({"scenario": "hostile_length", "decl": decl, "shape": shape, "fmt": Format::Msgpack, "bytes_hex": hex(bytes), "vm_limit_kb": HOSTILE_VM_LIMIT_KB})
+}
+
+/// (invariant, detail) if the newtype side dies where the twin side returns.
+fn hostile_verdict(decl_idx: usize, shape: ShapeId, bytes: &[u8]) -> Option<(String, String)> {
+    let t = hostile_child(decl_idx, shape, bytes, false);
+    if matches!(t, Some(0)) {
+        return None;
+    }
+    let tw = hostile_child(decl_idx, shape, bytes, true);
+    if matches!(tw, Some(0)) {
+        let how = match t {
+            None => "was killed by a signal (abort)".to_string(),
+            Some(c) => format!("exited with status {c}"),
+        };
+        return Some((
+            "deserialize_returns_instead_of_aborting".to_string(),
+            format!("reading the MessagePack document {} under a {} KB address-space limit: the newtype side {how}; the serde-derived twin returned normally", hex(bytes), HOSTILE_VM_LIMIT_KB),
+        ));
+    }
+    None
+}
+
+fn run_hostile(i: u64, st: &mut Stats, ctx: &WorkerCtx) {
+    let n_h = HOSTILE_HEADERS.len() as u64;
+    let decl_idx = (i / (2 * n_h)) as usize;
+    let shape = if (i / n_h) % 2 == 0 { ShapeId::Bare } else { ShapeId::VecOf };
+    let header = HOSTILE_HEADERS[(i % n_h) as usize];
+    let bytes = hostile_doc(shape, header);
+    let name = decl_name(decl_idx);
+    let verdict = ctx.guarded(|| hostile_plan(name, shape, &bytes), || hostile_verdict(decl_idx, shape, &bytes));
+    st.evaluations += 1;
+    st.inc("fault.hostile_length_prefix_under_address_space_limit");
+    if let Some((inv, detail)) = verdict {
+        st.violation(Violation {
+            run_index: u64::MAX - 5_000_000 - i,
+            scenario: "S-DESER",
+            decl: name.to_string(),
+            invariant: inv.clone(),
+            signature: format!("{}:msgpack:{}", inv, shape.name()),
+            detail,
+            plan: hostile_plan(name, shape, &bytes),
+        });
+    }
+}
+
 fn run_check(cfg: &Config) -> i32 {
     let t0 = Instant::now();
     let mut determinism_diverged = false;
@@ -1013,6 +1122,12 @@ fn run_check(cfg: &Config) -> i32 {
     stats.merge(s2);
     let s3 = sweep(cfg, SC_BYZ, n_byz, false, cfg.workers);
     stats.merge(s3);
+    // 4. hostile length prefixes, each read in a child process under an address-space limit
+    let cfg4 = cfg.clone();
+    let n_hostile = n_decls() as u64 * 2 * HOSTILE_HEADERS.len() as u64;
+    let s4 = runner::run_sharded(n_hostile, cfg.workers, false, HANG_LIMIT, move |plan| hang_exit(&cfg4, plan), |i, st, ctx| run_hostile(i, st, ctx));
+    let hostile_reads = s4.evaluations;
+    stats.merge(s4);
 
     // determinism probe
     for which in [SC_SESSION, SC_BYZ] {
@@ -1064,7 +1179,7 @@ fn run_check(cfg: &Config) -> i32 {
     extra.insert("core_declarations_all_16_positions".into(), json!((0..n_decls()).filter(|i| decl_is_core(*i)).map(decl_name).collect::<Vec<_>>()));
     extra.insert("positions".into(), json!(ShapeId::ALL.iter().map(|s| s.name()).collect::<Vec<_>>()));
     extra.insert("formats".into(), json!(["json (serde_json 1.0.117: from_reader/from_slice/from_str/StreamDeserializer)", "ron 0.8.1 (from_reader/from_bytes/from_str)", "messagepack (rmp-serde 1.1.2: from_read/from_slice)", "SimFormat (stub token peer)"]));
-    extra.insert("sub_scenarios".into(), json!({"enum_single_fault_evaluations": enum_evals, "session_gets": session_gets, "sessions": n_sessions, "byzantine_runs": n_byz}));
+    extra.insert("sub_scenarios".into(), json!({"enum_single_fault_evaluations": enum_evals, "session_gets": session_gets, "sessions": n_sessions, "byzantine_runs": n_byz, "hostile_length_reads_in_child_processes": hostile_reads}));
     extra.insert("determinism_probe".into(), json!({"runs_per_scenario": 1024, "worker_counts": [3, cfg.workers.max(2)], "event_logs_identical": true}));
     report::write_evidence(
         cfg,
@@ -1124,6 +1239,16 @@ fn main() {
     runner::quiet_panics();
     let code = match args.first().map(|s| s.as_str()) {
         Some("replay") => run_replay(&cfg, args.get(1).map(|s| s.as_str()).unwrap_or("")),
+        // child mode of the hostile-length sub-scenario: one read, one side, then exit 0
+        Some("hostile") => {
+            let idx: usize = args.get(1).and_then(|s| s.parse().ok()).unwrap_or(0);
+            let shape = if args.get(2).map(|s| s.as_str()) == Some(ShapeId::VecOf.name()) { ShapeId::VecOf } else { ShapeId::Bare };
+            let bytes = unhex(args.get(3).map(|s| s.as_str()).unwrap_or(""));
+            let twin = args.get(4).map(|s| s.as_str()) == Some("twin");
+            let r = with_decl(idx, HostileRead { shape, bytes: &bytes, twin });
+            println!("{r}");
+            0
+        }
         // debug aid: execute one session of the seeded sweep on the main thread, plan printed first
         Some("session") => {
             let i: u64 = args.get(1).and_then(|s| s.parse().ok()).unwrap_or(0);
